@@ -9,6 +9,7 @@ import (
 	"errors"
 	"fmt"
 	"io"
+	"math"
 	"net"
 	"sync/atomic"
 	"time"
@@ -409,6 +410,34 @@ func runCallerLimits(b *harness.B) {
 		}
 	}
 
+	// a caller limit at the top of its range ("no limit"): the bound the reader computes from it must not wrap
+	for _, L := range []uint64{1 << 62, math.MaxInt64 - 8, math.MaxInt64 - 7, math.MaxInt64, math.MaxUint64 - 8, math.MaxUint64} {
+		b.Eval(1)
+		obj := &rhp2.RPCSettingsResponse{Settings: g.bytes(2000)}
+		rt, ht, _, _, err := rhp2Pair(memconn.Options{BufSize: 8 << 20}, hostSK, nil, nil)
+		if err != nil {
+			b.Inconclusive("rhp2 handshake failed in huge-limit case: " + err.Error())
+			continue
+		}
+		werr := make(chan error, 1)
+		go func() { werr <- ht.WriteResponse(obj) }()
+		var got rhp2.RPCSettingsResponse
+		rerr := rt.ReadResponse(&got, L)
+		<-werr
+		closed := rt.IsClosed()
+		rt.ForceClose()
+		ht.ForceClose()
+		b.Count("caller_limits_at_the_top_of_the_range", 1)
+		b.Distinct("caller-limit", "rhp2", "huge", L)
+		if isTimeout(rerr) {
+			b.Inconclusive("watchdog fired in rhp2 huge-limit case")
+		} else if rerr != nil {
+			b.Violate("C19/rejects-valid/rhp2.ReadResponse/caller-limit-at-the-top-of-its-range", fmt.Sprintf("an ordinary 4096-byte message was refused with caller limit %d: %v (session closed: %v)", L, rerr, closed), map[string]any{"protocol": "rhp2", "caller_limit": L, "read_error": rerr.Error()})
+		} else if d := equalObj(obj, &got); d != "" {
+			b.Violate("C19/roundtrip-mismatch/rhp2.RPCSettingsResponse", d, nil)
+		}
+	}
+
 	// RHP2 hostile length prefixes and endless garbage, RawResponse included
 	for _, L := range []uint64{0, 100, 4096, 5000, 1 << 16} {
 		eff := L
@@ -558,6 +587,35 @@ func runCallerLimits(b *harness.B) {
 					b.Violate("C19/limit-not-applied/rhp3.ReadResponse/"+kind, fmt.Sprintf("a %d-byte message was accepted with caller limit %d: more than limit+1024 bytes were read", total, L), wit)
 				}
 			}
+		}
+	}
+	// RHP3: a caller limit at the top of its range
+	for _, L := range []uint64{1 << 62, math.MaxInt64 - 1024, math.MaxInt64, math.MaxUint64 - 1024, math.MaxUint64} {
+		b.Eval(1)
+		obj, fresh := &rhp3.RPCUpdatePriceTableResponse{PriceTableJSON: g.bytes(2000)}, &rhp3.RPCUpdatePriceTableResponse{}
+		rs := rt3.DialStream()
+		rs.SetDeadline(time.Now().Add(watchdog))
+		werr := make(chan error, 1)
+		go func() { werr <- rs.WriteResponse(obj) }()
+		hs, err := ht3.AcceptStream()
+		if err != nil {
+			b.Inconclusive("rhp3 AcceptStream failed")
+			<-werr
+			continue
+		}
+		hs.SetDeadline(time.Now().Add(watchdog))
+		rerr := hs.ReadResponse(fresh, L)
+		hs.Close()
+		rs.Close()
+		<-werr
+		b.Count("caller_limits_at_the_top_of_the_range", 1)
+		b.Distinct("caller-limit", "rhp3", "huge", L)
+		if isTimeout(rerr) {
+			b.Inconclusive("watchdog fired in rhp3 huge-limit case")
+		} else if rerr != nil {
+			b.Violate("C19/rejects-valid/rhp3.ReadResponse/caller-limit-at-the-top-of-its-range", fmt.Sprintf("an ordinary 2 KB message was refused with caller limit %d: %v", L, rerr), map[string]any{"protocol": "rhp3", "caller_limit": L, "read_error": rerr.Error()})
+		} else if d := equalObj(obj, fresh); d != "" {
+			b.Violate("C19/roundtrip-mismatch/"+typeName(obj), d, nil)
 		}
 	}
 	// RHP3 hostile length prefix
